@@ -225,6 +225,51 @@ def run_point_ops(env, sh):
         env.check(not (P == O), 'P != O')
         env.check(not (P == 5), 'comparison with a non-point is False')
         return
+    if sh['op'] == 'loworder':
+        # concrete low-order points (Edwards curves have cofactor 8 / 4): construction, neutral test, negation, copy,
+        # addition, doubling and small multiples against the textbook formulas (vlib/models/ecref.py)
+        from vlib.models import ecref
+        c = _ref_curve(curve)
+        add = lambda A, B: ecref.ed_add(c, A, B)
+        if curve == 'Ed25519':
+            i = pow(2, (p - 1) // 4, p)
+            y8 = int.from_bytes(bytes.fromhex('26e8958fc2b227b045c3f489f2ef98f0d5dfac05d3c63339b13802886d53fc05'), 'little') & ((1 << 255) - 1)
+            u, v = (y8 * y8 - 1) % p, (c.d * y8 * y8 + 1) % p
+            x2 = u * pow(v, p - 2, p) % p
+            x8 = pow(x2, (p + 3) // 8, p)
+            if (x8 * x8 - x2) % p:
+                x8 = x8 * i % p
+            T = (x8, y8)
+            order = 8
+        else:
+            T = (1, 0)
+            order = 4
+        assert ecref.ed_on_curve(c, *T)
+        G = ECC._curves[curve].G
+        g = (int(G.x), int(G.y))
+        for k in range(order):
+            L = ecref.generic_smul(add, (0, 1), k, T)
+            try:
+                Q = EccPoint(L[0], L[1], curve)
+            except ValueError:
+                env.check(False, 'the curve point %d*T of order dividing %d is accepted by EccPoint' % (k, order))
+                continue
+            env.check(Q.is_point_at_infinity() == (L == (0, 1)), 'is_point_at_infinity() is true exactly for the neutral element (%d*T)' % k)
+            try:
+                N = -Q
+                env.check((int(N.x), int(N.y)) == ((-L[0]) % p, L[1]), '-(%d*T) == textbook negation' % k)
+                C2 = Q.copy()
+                env.check(C2 == Q, 'copy() of %d*T equals the original' % k)
+                S = Q + G
+                env.check((int(S.x), int(S.y)) == add(L, g), '%d*T + G == textbook sum' % k)
+                D = Q.copy().double()
+                env.check((int(D.x), int(D.y)) == add(L, L), 'double(%d*T) == textbook' % k)
+                for m in (0, 1, 2, 3, order, order + 1):
+                    M = Q * m
+                    env.check((int(M.x), int(M.y)) == ecref.generic_smul(add, (0, 1), m, L), '%d * (%d*T) == textbook multiple' % (m, k))
+            except ValueError as e:
+                env.check(False, 'arithmetic on the low-order point %d*T does not raise [%s]' % (k, e))
+        return
     if sh['op'] == 'addneg':
         env.assume(not P.is_point_at_infinity())
         kQ = _sym_key(env, curve, 'kQ')
@@ -507,6 +552,8 @@ def shapes(tier):
         for kb in ((1, 2, 31, 32, 33, 64, 75) if th else (1, 32, 33, 66)):
             jobs.append(('point_ops', dict(curve=c, op='mul', kbytes=kb)))
         jobs.append(('point_ops', dict(curve=c, op='special')))
+        if c.startswith('Ed'):
+            jobs.append(('point_ops', dict(curve=c, op='loworder')))
         if c not in MONT:
             jobs.append(('point_ops', dict(curve=c, op='addneg')))
     for fn in ('le64_to_25p5', 'le8_to_25p5', 'be8_to_25p5', '25p5_to_le64', '25p5_to_le8', '25p5_to_be8', 'add_25519', 'sub_25519', 'add32',
